@@ -69,7 +69,7 @@ def main():
                  're._parser tree of _directive_re with categories expanded) and tools/translate/cfmtconv2lean.py (statement-by-statement translation of the '
                  'decision code of Conversion.__init__; construct table in its header) with the kit Model/CFmtKit.lean',
                  'Spec.BraceRe.bt (shared with C13) as a model of the sre engine: ordered alternation, greedy repeats, captures restored on backtracking',
-                 'the first half of Conversion.__init__ (length x conversion -> type) is tied by exhaustive probing; add_argument and the gap/type loops are hand-modelled (cfmt-* streams)',
+                 'the first half of Conversion.__init__ (length x conversion -> type) is tied by exhaustive probing; the gap/type loops after the scan are hand-modelled (cfmt-* streams)',
                  'Spec.Printf is my reading of printf(3)/C99 7.19.6.1/POSIX; it is compared on every run with an independent Python '
                  'reference written from the man page and with glibc parse_printf_format (argument count and PA_* argument types, documented differences excluded) through the real code',
                  'the correspondence harness (canonicalisers in tools/checks/cfmt_common.py, Driver/CFmt.lean)'],
@@ -79,13 +79,13 @@ def main():
                     'TIE (Props/C11Tie.lean, regenerated from the current source each run): directive_regex (the scanner step = first match of the LIVE parse tree of '
                     '_directive_re under backtracking semantics, end and all group spans, for every string and position; through the verified canonicaliser ReKit.norm), '
                     'segmentation_is_finditer + match_decodes + error_prefix_printable (the finditer loop of FormatString.__init__ with its two Error tests, items decoded from '
-                    'the named groups = CFmt.scan), generated_conversion_eq_model (decision code of Conversion.__init__ translated from source = CFmt.conversion). '
+                    'the named groups = CFmt.scan), generated_conversion_eq_model / generated_add_argument_eq_model (decision code of Conversion.__init__ and FormatString.add_argument translated from source = the model). '
                     'Proved for every string: parse_complete, parse_iff_valid (acceptance iff validity, with the signature), parse_error_own (own errors only), '
                     'via int_unlimited (sys.get_int_max_str_digits() as dumped from the running tool is 0: lib/__init__.py lifts the limit since fix: 871d4d7) '
                     'and the _partial theorems, which hold for any limit under "no digit run longer than the limit". On the pinned tree the unrestricted '
                     'clauses were false (witness "%." + "0"*4301 + "d": ValueError from int()); the witness is replayed on the real code each run '
                     '(fixed entry in known_findings.json). OUTSTANDING: nothing stated in the design is missing. Correspondence-level only: the type half of '
-                    'Conversion.__init__ (exhaustively probed), add_argument, the gap and one-type loops (cfmt-* streams).')
+                    'Conversion.__init__ (exhaustively probed), the gap and one-type loops (cfmt-* streams).')
 
 if __name__ == '__main__':
     common.main_wrapper(main)
